@@ -6,8 +6,9 @@ import random
 from .. import common, libdiff, translate
 from ..common import coq_string, coq_list
 
-THEOREMS_A = ["c05_translated_source_panics_iff_shared", "c05_translated_source_passes_iff_disjoint",
-              "c05_overlap_check_panics_iff_shared", "c05_overlap_check_passes_iff_disjoint",
+THEOREMS_T = ["c05_translated_source_panics_iff_shared", "c05_translated_source_passes_iff_disjoint",
+              "c05_translated_source_refines_model", "c05_translated_source_deterministic"]
+THEOREMS_A = ["c05_overlap_check_panics_iff_shared", "c05_overlap_check_passes_iff_disjoint",
               "c05_overlap_check_total", "c05_published_list_sorted", "c05_published_list_is_wire_names",
               "c05_contract_compiles_iff_no_shared_name"]
 
@@ -65,7 +66,8 @@ def gen_overlap_cases(rng, thorough):
     return cases
 
 
-def check_overlap(run, rng, thorough, cases=None):
+def check_overlap(run, rng, thorough, cases=None, translated=True):
+    """translated: the translation of utils.rs succeeded, so GenImp.utils_program is the current source and is run too"""
     cases = cases if cases is not None else gen_overlap_cases(rng, thorough)
     obs = libdiff.run([{"op": "intersect", "lists": ls} for ls in cases], tag="c05")
     header = ("From Coq Require Import List.\nFrom Coq Require String.\nImport ListNotations.\nImport String.StringSyntax.\n"
@@ -94,7 +96,7 @@ def check_overlap(run, rng, thorough, cases=None):
             run.oracle_fail(f, {"kind": "overlap", "lists": ls, "impl": o})
         if model is not None and model[i][:1] != [o]:
             run.disagree("assert_no_intersection outcome (hand-written model)", {"lists": ls, "sorted": srt}, model[i][:1], o)
-        if model is not None and model[i][1:] != [o]:
+        if model is not None and translated and model[i][1:] != [o]:
             # the Rust source as translated by the probe / imp_translate.py, run under the semantics of Model/Imp.v
             run.disagree("assert_no_intersection outcome (translated source under Imp semantics)", {"lists": ls, "sorted": srt}, model[i][1:], o)
     return len(cases)
@@ -112,17 +114,23 @@ def check(run, replay=None):
     except translate.TranslateError as e:
         run.translator_error(str(e))
     from . import libcommon
-    libcommon.regen_imp(run)
+    untranslated = [e for e in libcommon.regen_imp(run) if "utils.rs" in e]
     run.hygiene()
     run.prove("Props/C05", THEOREMS_A)
+    # the tie by translation (theorems about sylvia/src/utils.rs as it is now); when it cannot be established the tie by
+    # correspondence below decides alone and is run on the thorough case set
+    tie = run.prove("Props/C05T", THEOREMS_T, strengthening=True)
+    deep = thorough or not tie
     if replay:
         data = json.load(open(replay))
         case = data.get("failure", {}).get("case", {})
         if case.get("kind") == "overlap":
-            check_overlap(run, rng, thorough, cases=[case["lists"]])
+            check_overlap(run, rng, thorough, cases=[case["lists"]], translated=not untranslated)
         print("replayed: %d oracle failure(s)" % len(run.oracle_failures))
         return 1 if run.oracle_failures else 0
-    n = check_overlap(run, rng, thorough)
+    n = check_overlap(run, rng, deep, translated=not untranslated)
+    if not tie:
+        run.notes.append("correspondence run deepened to the thorough case set (%d tuples) because the translated-source theorems are not established" % n)
     run.exhaustive = True
     run.programs = n
     from . import c05_tables
